@@ -30,14 +30,6 @@ def remEuclid1 (x : α) : α :=
   let r := rem1 x
   if r < (0.0 : α) then r + (1.0 : α) else r
 
-/-- mirrors: modulator/lfo.rs::Waveform -/
-inductive Waveform (α : Type) where
-  | sine
-  | triangle
-  | saw
-  | pulse (width : α)
-deriving Repr
-
 /-- mirrors: modulator/lfo.rs::Waveform::value -/
 def Waveform.value (w : Waveform α) (phase : α) : α :=
   match w with
